@@ -193,13 +193,19 @@ func isLAN(a netip.Addr) bool {
 	return ip.IsLoopback() || ip.IsPrivate() || ip.IsLinkLocalUnicast()
 }
 
-// subnet key: the top 24 bits of the address in the form the node stores it
+// subnetOf computes the real network of an address independently of netutil: the /24 of the
+// IPv4 address for 4-byte and IPv4-mapped 16-byte addresses, the top 24 bits otherwise.
 func subnetOf(a netip.Addr) string {
-	if a.Is4() {
-		b := a.As4()
-		return fmt.Sprintf("4:%x", b[:3])
-	}
 	b := a.As16()
+	mapped := true
+	for i := 0; i < 10; i++ {
+		if b[i] != 0 {
+			mapped = false
+		}
+	}
+	if a.Is4() || (mapped && b[10] == 0xff && b[11] == 0xff) {
+		return fmt.Sprintf("4:%x", b[12:15])
+	}
 	return fmt.Sprintf("6:%x", b[:3])
 }
 
@@ -672,7 +678,7 @@ func genIP(r *Rng, nsub int, lanPct int) []byte {
 		b[0], b[1], b[2] = 0x2a, 0x01, byte(r.Intn(1+nsub/4))
 		copy(b[8:], r.Bytes(8))
 		return b
-	case k < lanPct+20: // IPv4-mapped public addresses (all share the key ::/24)
+	case k < lanPct+20: // IPv4-mapped public addresses (same /24s as the plain IPv4 ones)
 		b := make([]byte, 16)
 		b[10], b[11] = 0xff, 0xff
 		copy(b[12:], []byte{8, 8, byte(r.Intn(nsub)), byte(1 + r.Intn(250))})
@@ -688,12 +694,12 @@ func recSx(id *big.Int, raw []byte, udp, seq uint64) []Sx {
 
 func genCase(r *Rng, nops int, emit func(Sx)) {
 	self := randID(r)
-	nsub := []int{2, 5, 12, 30, 60}[r.Intn(5)]
+	nsub := []int{2, 5, 12, 30, 60, 60}[r.Intn(6)]
 	lanPct := []int{0, 10, 30, 60}[r.Intn(4)]
 	npool := 20 + r.Intn(100)
 	// concentrate ids: a case-specific favourite set of distances
 	fav := []int{256, 255, 254, 253, 250, 245, 241, 240, 239, 200, 17, 1}
-	nfav := 1 + r.Intn(4)
+	nfav := 1 + r.Intn(3)
 	pool := make([]*poolNode, npool)
 	for i := range pool {
 		var d int
@@ -825,16 +831,16 @@ func genCase(r *Rng, nops int, emit func(Sx)) {
 }
 
 func gen(r *Rng, tier string, emit func(Sx)) {
-	n := 400
+	n := 260
 	if tier == "thorough" {
-		n = 12000
+		n = 8000
 	}
 	for i := 0; i < n; i++ {
 		nops := 20 + r.Intn(60)
-		switch r.Intn(4) {
-		case 0:
+		switch r.Intn(5) {
+		case 0, 1:
 			nops = 150 + r.Intn(250)
-		case 1:
+		case 2:
 			nops = 80 + r.Intn(100)
 		}
 		genCase(r.Fork(), nops, emit)
